@@ -5,8 +5,11 @@ import vlib
 TARGETS = ["Base/Num.vo", "Base/Corr.vo", "C02/Model.vo", "C02/Spec.vo", "C02/Corr.vo",
            "C02/ProofsInt.vo", "C02/ProofsReal.vo", "C02/ProofsRed.vo", "C02/ProofsConv.vo",
            "C02/Ext.vo", "C02/ProofsExt.vo", "C02/CorrExt.vo", "C02/Props.vo",
-           "C02/ModelVec.vo", "C02/ProofsVec.vo", "C02/PropsVec.vo"]
-PROPS = ["C02/Props.v", "C02/PropsVec.v"]
+           "C02/ModelVec.vo", "C02/ProofsVec.vo", "C02/PropsVec.vo",
+           "C02/ModelSt.vo", "C02/ProofsSt.vo", "C02/ProofsStNamed.vo", "C02/CorrSt.vo", "C02/PropsSt.vo",
+           "C02/ProofsPow.vo", "C02/CorrPow.vo", "C02/PropsPow.vo",
+           "C02/Bodies.vo", "C02/Values.vo", "C02/ProofsBodies.vo", "C02/PropsBodies.vo"]
+PROPS = ["C02/Props.v", "C02/PropsVec.v", "C02/PropsSt.v", "C02/PropsPow.v", "C02/PropsBodies.v"]
 CORPUS = os.path.join(vlib.ROOT, "corpus/C02/corpus.jsonl")
 PROPOSED = os.path.join(vlib.ROOT, "corpus/C02/known_findings_proposed.json")
 
@@ -30,6 +33,17 @@ PARTIAL = (
     "(index loop over Dim()/ConstAt, or for Vnorm the iterator, which skips the zeros of a sparse operand) and the result is proved to be the named function of ALL elements for EVERY representation: "
     "SmoothMax (XR, and ER), LogSmoothMax = SmoothMax for positive (XR) and for non-negative operands (ER: each implicit zero adds e^0 = 1 to the denominator and nothing to the numerator), Vmean, VdotV of two "
     "differently represented operands, Vnorm = sqrt(sum of squares of all elements) although the iterator skips zeros, Mtrace = sum of mat_at a i i, Mnorm = sum of squares of all elements; "
+    "(2d) STATE (round 6; coq/C02/ModelSt.v, PropsSt.v): LogAdd/LogSub/Sigmoid (t Scalar), SmoothMax (t [2]Scalar), LogSmoothMax (t [3]Scalar) and the reductions Vmean/VdotV/Vnorm/Mtrace/Mnorm "
+    "as TRANSITIONS of the state (receiver, t[0], t[1], t[2]) with ARBITRARY content on entry (every scratch scalar read where the code reads it and written where it writes it; r.Reset(), t[1].Reset(), "
+    "t[2].SetFloat64(-Inf) explicit steps; the state after the call is what the code leaves behind): for every carrier, every receiver and scratch type, the value left in the receiver is the operand-only function "
+    "of Model.v whatever the receiver and the scratch held; lifted by induction to HISTORIES of calls on one receiver and one scratch bank (also calls whose operand is the receiver itself, c.LogAdd(c,b,t)); "
+    "frame (a call writes the receiver and the scratch it was handed, nothing else); the named-function theorems restated from every dirty state (XR and ER). "
+    "(2e) BODIES FROM SOURCE (round 6; go2coq_c02 -> runs/C02/gen_bodies.v): the Go bodies of LogAdd LogSub Log1pExp Sigmoid Logistic SmoothMax LogSmoothMax Vmean (9 receiver types) and LOGADD LOGSUB are regenerated on every run as "
+    "programs of a small statement language (coq/C02/Bodies.v) and must equal the expected program by reflexivity (90 bodies); the interpreter run on the expected programs is proved equal to the state-passing model. "
+    "Likewise the float64 VALUE EXPRESSION of every return path of Pow Sqrt POW SQRT and of the 13 math.* methods (+ EXP LOG LOG1P) of all 9 receiver types (180 tables; for the Real types both branches of Pow/POW: "
+    "exponent with and without derivatives) is regenerated and proved to store the op table's value. "
+    "(2f) POW (round 6; Ext.epow, PropsPow.v): on ER every float type computes x^y with the WHOLE special-case table of C99/Go (x^0 = 1 incl. NaN^0, 1^y = 1 incl. 1^NaN and 1^Inf, negative base: integer exponent gives the "
+    "integer power with its sign, non-integer gives NaN, 0^y, x^(+-Inf), (+-Inf)^y with the odd-integer rule); the table is tied to EVERY recorded math.Pow call of the run by CorrPow.pow_special_ok (cert_pow.v). "
     "(3) Real64 value path = Float64 value path for every op (every carrier; the concrete SQRT excluded, its two bodies differ); (4) ConvertScalar/ConvertConstScalar yield the "
     "requested registered type holding the getter-converted value; refutations for the known findings. NOT proved: the step from exact reals to "
     "binary64/binary32 rounding (covered per sampled case: bit-exact replay on Coq primitive floats with float32 rounding via "
@@ -37,7 +51,9 @@ PARTIAL = (
     "recorded call by Coq-Interval goals, capped per run; the special-value table is checked against every recorded call with a non-finite argument or result) and of math.Gamma/Lgamma and /repo/special (opaque; only same-routing across types is "
     "checked; special.LogErfc is additionally certified per recorded call against ln(1 - erf x), erf the integral, by Coq-Interval on the whole negative side and up to x = 3: a wrong branch "
     "selection there fails the certificate), float->int conversions of NaN/out-of-range values (implementation-defined in Go: excluded and counted), signed zeros and overflow/underflow on the extended carrier "
-    "(R has one zero; math.Pow at non-finite operands only for the exponents 0.5 and 2), derivative slots (C01).")
+    "(R has one zero: (-0)^odd-negative = -Inf is checked on the recorded binary64 calls only), derivative slots (C01). The state-passing model has no derivative arrays: that "
+    "dirty Real scratch carrying derivatives of an earlier call does not change the value is covered per sampled history only; go2coq_c02 covers the methods listed in (2e), the other bodies (Vnorm, VdotV, Mtrace, Mnorm, "
+    "Abs, Min, Max, comparisons, conversions, the integer ring operations) are hand-transcribed; the statement-language interpreter treats LogAdd inside LogSmoothMax as the primitive logadd_st (itself tied by its own regenerated body).")
 
 
 def known():
@@ -59,16 +75,18 @@ def is_known(failure):
 
 def eval_with_excluded(paths):
     """vlib.eval_shards plus the counter E (cases whose model result is the excluded, implementation-defined
-    float->int conversion) that every case shard prints after M."""
+    float->int conversion) that every case shard prints after M.
+    Robust on a loaded machine: at most 8 coqc processes at a time (the Coq-Interval certificates need ~1 GB each); a
+    process that ends without a Coq error message was killed (deadline / out of memory) and is evaluated again, one at a
+    time, up to three more times; a file that reports a Coq error is evaluated once more (a genuine failure is
+    deterministic and fails again)."""
     import concurrent.futures as cf, time
 
-    def one(p):
+    def attempt(p, timeout):
         t0 = time.time()
-        rc, out = vlib.coqc_file(p, timeout=900)
-        if rc != 0 and "Error" not in out:
-            # no Coq error message: the process was killed (time-out / memory pressure on a loaded machine); evaluate once more
-            rc, out = vlib.coqc_file(p, timeout=1500)
-        r = {"path": p, "secs": round(time.time() - t0, 2), "ok": False, "mism": None, "error": None, "excl": 0}
+        rc, out = vlib.coqc_file(p, timeout=timeout)
+        r = {"path": p, "secs": round(time.time() - t0, 2), "ok": False, "mism": None, "error": None, "excl": 0,
+             "killed": rc != 0 and "Error" not in out}
         m = re.search(r"M\s*=\s*(\[[^\]]*\])", out, flags=re.S)
         e = re.search(r"E\s*=\s*(\d+)", out)
         if e:
@@ -78,7 +96,7 @@ def eval_with_excluded(paths):
             r["mism"] = [int(x) for x in re.findall(r"\d+", body)] if body else []
             r["ok"] = (r["mism"] == [])
         else:
-            r["error"] = out[-3000:]
+            r["error"] = out[-3000:] or "coqc ended without output (killed)"
         for ext in (".vo", ".vok", ".vos", ".glob"):
             q = p[:-2] + ext
             if os.path.exists(q):
@@ -87,8 +105,61 @@ def eval_with_excluded(paths):
         if os.path.exists(aux):
             os.remove(aux)
         return r
-    with cf.ThreadPoolExecutor(max_workers=vlib.NCPU) as ex:
-        return list(ex.map(one, paths))
+
+    with cf.ThreadPoolExecutor(max_workers=min(vlib.NCPU, 8)) as ex:
+        res = list(ex.map(lambda p: attempt(p, 900), paths))
+    for k, r in enumerate(res):
+        if r["mism"] is not None:
+            continue
+        tries = 3 if r["killed"] else 1
+        for n in range(tries):
+            if r["killed"]:
+                time.sleep(10 * (n + 1))
+            r2 = attempt(r["path"], 1800)
+            r2["secs"] += r["secs"]
+            r = r2
+            if r["mism"] is not None or not r["killed"]:
+                break
+        res[k] = r
+    return res
+
+
+def translate(ctx):
+    """round 6: regenerate the bodies of the scratch-taking methods from vlib.REPO (go2coq_c02) and let Coq check, by
+    reflexivity, that each is the expected program of coq/C02/Bodies.v.  Returns a list of failures (proof-stage format)."""
+    tool, tlog = vlib.build_tool("go2coq_c02", "go2coq_c02")
+    if tool is None:
+        ctx.oblige(1, 0)
+        return [{"target": "go2coq_c02 build", "lemma": None, "errors": [tlog[-1500:]]}]
+    gen = os.path.join(ctx.dir, "gen_bodies.v")
+    rep = os.path.join(ctx.dir, "gen_bodies.json")
+    rc, out = vlib.sh([tool, "-repo", vlib.REPO, "-out", gen, "-report", rep], timeout=120, env=vlib.go_env())
+    if rc != 0 or not os.path.exists(gen) or not os.path.exists(rep):
+        ctx.oblige(1, 0)
+        return [{"target": "go2coq_c02 run", "lemma": None, "errors": [out[-1500:]]}]
+    report = json.load(open(rep))
+    ctx.cov["translator"] = report
+    failures = []
+    if not report.get("ok"):
+        failures.append({"target": "go2coq_c02: a method body of the library is outside the translated grammar or missing "
+                                   "(the source of a scratch-taking scalar method changed shape)", "lemma": None,
+                         "errors": report.get("errors", [])[:6]})
+    r = eval_with_excluded([gen])[0]
+    if not r["ok"]:
+        m = re.search(r'line (\d+)', r["error"] or "")
+        goal = ""
+        if m:
+            try:
+                goal = open(gen).read().split("\n")[int(m.group(1)) - 1][:300]
+            except (OSError, IndexError):
+                pass
+        failures.append({"target": "runs/C02/gen_bodies.v: a body regenerated from the Go source is not the expected program "
+                                   "of coq/C02/Bodies.v (the model's statement sequence no longer is the code's)",
+                         "lemma": goal, "errors": [(r["error"] or "")[-800:]]})
+    ctx.oblige(2, 2 - min(2, len(failures)))
+    ctx.log("translator: %s bodies and %s value-path tables regenerated from %s, %s" % (report.get("bodies_translated"), report.get("value_path_tables"), vlib.REPO,
+                                                               "all equal to the expected programs" if not failures else "TIE BROKEN"))
+    return failures
 
 
 def corr(ctx, binary, n):
@@ -102,21 +173,30 @@ def corr(ctx, binary, n):
     shards = sorted(glob.glob(os.path.join(ctx.dir, "cases_*.v")),
                     key=lambda p: int(re.findall(r"_(\d+)\.v$", p)[0]))
     certs = sorted(glob.glob(os.path.join(ctx.dir, "cert_*.v")))
-    res = eval_with_excluded(shards + certs)
-    rs, rc_ = res[:len(shards)], res[len(shards):]
+    # round 6: histories on one receiver and one dirty scratch bank (coq/C02/CorrSt.v), own shard files
+    seqs = sorted(glob.glob(os.path.join(ctx.dir, "seq_*.v")),
+                  key=lambda p: int(re.findall(r"_(\d+)\.v$", p)[0]))
+    smeta = {"per_shard": 40}
+    if os.path.exists(os.path.join(ctx.dir, "seq.meta.json")):
+        smeta = json.load(open(os.path.join(ctx.dir, "seq.meta.json")))
+        vlib.merge_meta(ctx, smeta)
+    res = eval_with_excluded(shards + seqs + certs)
+    rs, rq, rc_ = res[:len(shards)], res[len(shards):len(shards) + len(seqs)], res[len(shards) + len(seqs):]
     ctx.oblige(len(res), sum(1 for r in res if r["ok"]))
     cases = vlib.load_jsonl(os.path.join(ctx.dir, "cases.jsonl"))
+    scases = vlib.load_jsonl(os.path.join(ctx.dir, "seq.jsonl")) if seqs else []
     bad, broken = [], False
-    for k, r in enumerate(rs):
-        if r["ok"]:
-            continue
-        broken = True
-        if r["mism"] is None:
-            ctx.violation({"obligation": "correspondence shard " + os.path.basename(r["path"]), "coqc_error": r["error"]},
-                          False, "correspondence shard did not evaluate")
-            continue
-        for i in r["mism"]:
-            bad.append(cases[k * meta["per_shard"] + i])
+    for group, per, pool in ((rs, meta["per_shard"], cases), (rq, smeta["per_shard"], scases)):
+        for k, r in enumerate(group):
+            if r["ok"]:
+                continue
+            broken = True
+            if r["mism"] is None:
+                ctx.violation({"obligation": "correspondence shard " + os.path.basename(r["path"]), "coqc_error": r["error"]},
+                              False, "correspondence shard did not evaluate")
+                continue
+            for i in r["mism"]:
+                bad.append(pool[k * per + i])
     cert_bad = [r for r in rc_ if not r["ok"]]
     for r in cert_bad:
         m = re.search(r'line (\d+)', r["error"] or "")
@@ -127,12 +207,18 @@ def corr(ctx, binary, n):
                 goal = lines[max(0, int(m.group(1)) - 2)][:400]
             except OSError:
                 pass
+        if r["mism"]:
+            ctx.violation({"obligation": "table " + os.path.basename(r["path"]), "entries": r["mism"][:20]}, False,
+                          "recorded math.* calls disagree with the special-value table of coq/C02 (%s, entries %s)" % (
+                              os.path.basename(r["path"]), r["mism"][:8]))
+            continue
         ctx.violation({"obligation": "certificate " + os.path.basename(r["path"]), "goal": goal, "coqc_error": (r["error"] or "")[-1500:]},
                       False, "a recorded math.* result is not within tolerance of the named real function (Coq-Interval certificate failed)")
     ctx.cov.setdefault("extra", {})["certificate_files"] = len(certs)
     ctx.cov["extra"]["excluded_implementation_defined_conversions"] = sum(r["excl"] for r in rs)
-    ctx.log("correspondence: %d cases in %d shards, %d mismatching; %d certificate files, %d failing (%.1fs max shard)" % (
-        len(cases), len(shards), len(bad), len(certs), len(cert_bad), max([r["secs"] for r in res] or [0])))
+    ctx.cov["extra"]["histories_ended_by_an_excluded_conversion"] = sum(r["excl"] for r in rq)
+    ctx.log("correspondence: %d cases in %d shards + %d histories in %d shards, %d mismatching; %d certificate files, %d failing (%.1fs max shard)" % (
+        len(cases), len(shards), len(scases), len(seqs), len(bad), len(certs), len(cert_bad), max([r["secs"] for r in res] or [0])))
     return bad, broken
 
 
@@ -154,10 +240,17 @@ def run(ctx):
         "float32 rounding modelled by SpecFloat.binary_normalize 24 128; Float32 + - * / as round32 of the binary64 operation (double rounding innocuous since 53 >= 2*24+2)",
         "math.* / special.* calls answered from a per-case oracle table recorded by the harness (Go's own results for the same argument bits); math.Exp/Log/Log1p/Sin/Cos/Tan/Sinh/Cosh/Tanh/Erf/Erfc/Pow entries certified against the real functions by Coq-Interval (interval/integral tactics), capped per run; Gamma/Lgamma/special.* opaque",
         "the extended carrier ER (coq/C02/Ext.v) is a specification-side instance of the same op table; its special-value table fn_special / fn_edge is tied to Go's math package by CorrExt.special_ok over every recorded call with a non-finite argument or result (runs/C02/cert_special.v); its IEEE arithmetic on the infinities is hand-written (one zero, no overflow)",
+        "go2coq_c02 (~550 lines of Go, go/parser + go/ast only): trusted for the shape of the translation of the method bodies listed in PARTIAL (2e) into coq/C02/Bodies.v / Values.v syntax; a construct outside its grammar is reported and fails the check",
+        "CorrPow.fpow_expect (the special-case table of x^y on binary64 operands) and Ext.epow (the same table on ER) are two hand-written renderings of one table; only the former is compared with Go's math.Pow",
         "Coquelicot/Reals axioms as printed under 'print_assumptions'",
     ]
     ctx.cov["partial"] = PARTIAL
     ok, failures = vlib.proof_stage(ctx, TARGETS, PROPS)
+    if ok:
+        tf = translate(ctx)
+        if tf:
+            ok = False
+            failures = failures + tf
     if ok:
         thms = vlib.theorem_names(os.path.join(vlib.COQ, "C02/Props.v"))
         if ctx.tier == "quick":
@@ -169,7 +262,14 @@ def run(ctx):
         vthms = [t for t in vlib.theorem_names(os.path.join(vlib.COQ, "C02/PropsVec.v")) if t.startswith("C02_vec") or t.startswith("C02_mat")]
         if ctx.tier == "quick":
             vthms = [t for t in vthms if t in ("C02_vec_vnorm", "C02_vec_ext_logsmoothmax_nonnegative", "C02_mat_mtrace")]
-        ctx.cov["print_assumptions"] = vlib.print_assumptions("C02", [("C02.Props", thms), ("C02.PropsVec", vthms)], ctx.dir)
+        sthms = vlib.theorem_names(os.path.join(vlib.COQ, "C02/PropsSt.v"))
+        pthms = vlib.theorem_names(os.path.join(vlib.COQ, "C02/PropsPow.v"))
+        if ctx.tier == "quick":
+            sthms = [t for t in sthms if t in ("C02_st_history", "C02_st_frame", "C02_st_ext_logsmoothmax")]
+            pthms = [t for t in pthms if t in ("C02_pow_ext", "C02_pow_negative_base_integer_exponent", "C02_pow_tracking_irrelevant")]
+        ctx.cov["print_assumptions"] = vlib.print_assumptions("C02", [("C02.Props", thms), ("C02.PropsVec", vthms),
+                                                                      ("C02.PropsSt", sthms), ("C02.PropsPow", pthms),
+                                                                      ("C02.PropsBodies", ["C02_body_logsmoothmax", "C02_body_smoothmax"])], ctx.dir)
     # optional stretch target: agreement with the value table of the C01 model (another builder's file; never the decision)
     if os.path.exists(os.path.join(vlib.COQ, "C01/Model.v")):
         ok2, _ = vlib.coq_make(["C02/AgreeC01.vo"])
